@@ -235,6 +235,14 @@ func (w *World) Do(o fsx.Op) (r fsx.Reply, implFail bool, mis *reffs.Mismatch) {
 	case "FLUSH":
 		w.Flush()
 		return
+	case "SHRINKCRASH":
+		// the server's own Crash(): a background shrinker stops after the transaction it is in (a large file is left
+		// half-freed), then shutdown; a new server instance on the same disk
+		w.Flush()
+		w.Srv.Crash()
+		w.Srv = nfs.MakeNfs(w.Disk)
+		w.Srv.Unstable = w.Unstable
+		return
 	case "DELETEALL":
 		mis = w.DeleteAll()
 		return
